@@ -38,6 +38,9 @@ CHECKS = {
  "C11": ("exploration", "proptest generation of payload directories, block sizes and request scripts; the real upload stream runs against a scripted peer over real temporary files; reference codec decodes the client's packets",
          "Generated directories (subsets of the 21 recognised paths plus unrelated files, sizes around 0 / block / k*block, random content), block sizes 1..32768 and request scripts (announced / unannounced ids, offsets at, before and after end of file and beyond 2^31, missing fields) drive the real WriteFile stream: the announcement must list exactly the recognised files with their true sizes and the password, every good request must be answered once with its id, offset and the bit-identical file slice, a bad request must end the upload with one error and no data.",
          "Trusted: own copy of the 21-entry file-id table; reference codec for feig.WriteFile / WriteData / RequestForData; files live in a per-case temporary directory.", "7/C11"),
+ "C12": ("exploration", "generated programs: proptest draws struct definitions from the well-formed attribute grammar, they are compiled against the repository's derive macro and run against the reference codec interpreting the generator's own layout description (differential + round trip + edit / suffix / totality oracles) on generated canonical values",
+         "250 (thorough 2400) random #[derive(Zvt)] structs per run - any mix of positional and tagged fields, Option / Vec, nested structs to depth 3, every length style and encoding, optional control field, both attribute spellings, 1- and 2-byte tags - are compiled with /repo's macro. For each, hundreds of generated canonical values must decode from reference-assembled bytes into exactly the described fields, re-encode identically and round-trip; tagged-group edits, suffix / shortened-length relations and a truncation / byte-edit totality pass reuse the C13 / C14 / C02 oracles.",
+         "Trusted: the generator's well-formedness rules (unique decodability, DESIGN.md Appendix D) and the reference codec. Program-level shrinking is by isolation of the failing struct. Known finding K3 (KNOWN_FINDINGS.txt) is tolerated by exact signature.", "7/C12"),
  "C13": ("exploration", "proptest-generated canonical values x enumerated edits of the reference encoder's group list (permutations, duplicates, removals, foreign tags) at every nesting level",
          "For every shipped type with tagged fields and generated canonical values, the tagged groups are permuted (all permutations up to 4/6 groups, sampled above), duplicated to every position, mandatory ones removed in every subset, and a tag unknown to the whole packet tree inserted at every gap, at the top level and inside every nested container; the decoder must return the same value, DuplicateTag(t), MissingRequiredTags(all, ascending), or error / exact prefix value + untouched remainder respectively.",
          "Trusted: reference encoder's grouping (tree.rs) and reference decoder for the prefix value. Inside Vec elements the documented 'failure = end of vector' rule weakens the oracle to the prefix predicate. Generated (lab) structs are covered by C12.", "7/C13"),
